@@ -109,6 +109,8 @@ type vfConn struct {
 	fcSeen     map[uint32]bool
 	goawayFC   bool
 	mode       string
+	goneAway   bool   // graceful GOAWAY sent: later streams are ignored, their DATA discarded
+	keepAlive  uint32 // the body-less request left in flight across the shutdown
 }
 
 func (c *vfConn) sortedStreams() []*vfStream {
@@ -412,6 +414,10 @@ func vfExec(t *testing.T, mode string, ops []string, o *vu.Out) {
 				if es {
 					s.status = vsHalfRemote
 				}
+				if c.goneAway {
+					s.status = vsClosed // HEADERS above the GOAWAY's last stream id are ignored
+					c.o.Stat("branch:stream-after-goaway")
+				}
 				c.streams[sid] = s
 				synctest.Wait()
 				c.st.callsMu.Lock()
@@ -424,12 +430,41 @@ func vfExec(t *testing.T, mode string, ops []string, o *vu.Out) {
 					s.exited = true
 				}
 			}
+		case "shutdown":
+			// a body-less request is left in flight (its handler never returns before the end of
+			// the case), then the server starts a graceful shutdown: GOAWAY(NO_ERROR)
+			if len(f) != 2 {
+				valid = false
+				break
+			}
+			sid := uint32(vfAtoi(f[1]))
+			if sid <= c.maxSid || sid%2 == 0 || c.goneAway {
+				c.dead = true // malformed script: nothing further is checked
+				break
+			}
+			c.st.writeHeaders(HeadersFrameParam{StreamID: sid, BlockFragment: c.st.encodeHeader(":method", "GET"), EndStream: true, EndHeaders: true})
+			c.maxSid = sid
+			ks := &vfStream{id: sid, win: c.streamInit, declCL: -1, status: vsHalfRemote}
+			c.streams[sid] = ks
+			synctest.Wait()
+			c.st.callsMu.Lock()
+			if len(c.st.calls) > 0 {
+				ks.call = c.st.calls[0]
+				c.st.calls = c.st.calls[1:]
+			}
+			c.st.callsMu.Unlock()
+			c.keepAlive = sid
+			c.goneAway = true
+			c.st.sc.StartGracefulShutdown()
 		case "data":
 			if len(f) != 5 {
 				valid = false
 				break
 			}
 			sid, ln, pad, es := uint32(vfAtoi(f[1])), vfAtoi(f[2]), vfAtoi(f[3]), f[4] == "1"
+			if c.goneAway && pad >= 0 && c.streams[sid] != nil && sid > c.keepAlive {
+				c.o.Stat("branch:padded-data-after-goaway")
+			}
 			if ln < 0 || pad < -1 || pad > 255 || ln+pad+1 > 1<<20 {
 				valid = false
 				break
@@ -487,7 +522,7 @@ func vfExec(t *testing.T, mode string, ops []string, o *vu.Out) {
 				break
 			}
 			s := c.streams[uint32(vfAtoi(f[1]))]
-			if s == nil || s.call == nil || s.exited {
+			if s == nil || s.call == nil || s.exited || (c.keepAlive != 0 && s.id == c.keepAlive) {
 				c.obs = append(c.obs, "nohandler")
 			} else if s.pend != nil {
 				c.obs = append(c.obs, "busy")
@@ -527,7 +562,7 @@ func vfExec(t *testing.T, mode string, ops []string, o *vu.Out) {
 				c.collect(s)
 			}
 			for _, s := range c.sortedStreams() {
-				if s.call != nil && !s.exited && s.pend == nil {
+				if s.call != nil && !s.exited && s.pend == nil && !(c.keepAlive != 0 && s.id == c.keepAlive) {
 					s.call.exit()
 					s.exited = true
 				}
@@ -617,8 +652,12 @@ func vfGen(r *vu.Rng, i int, mode string) []string {
 	conn.add(connWin - InitialWindowSize)
 	var streams []*gstream
 	nextID := 1
+	afterGoAway := false
 	openStream := func() *gstream {
 		s := &gstream{id: nextID, fl: gflow{avail: streamWin}, open: true, handler: true, cl: -1}
+		if afterGoAway {
+			s.open, s.closed, s.handler = false, true, false
+		}
 		nextID += 2
 		es := 0
 		if r.Chance(1, 12) {
@@ -682,7 +721,7 @@ func vfGen(r *vu.Rng, i int, mode string) []string {
 		}
 		pad := int64(-1)
 		ln := L
-		if r.Chance(1, 5) && L >= 1 {
+		if (r.Chance(1, 5) || (afterGoAway && r.Chance(2, 3))) && L >= 1 {
 			pad = int64(r.Intn(256))
 			if pad+1 > L {
 				pad = L - 1
@@ -769,7 +808,19 @@ func vfGen(r *vu.Rng, i int, mode string) []string {
 		steps = r.Range(4, 24)
 	}
 	openStream()
+	shutdownAt := -1
+	if r.Chance(1, 4) {
+		shutdownAt = r.Intn(steps)
+	}
 	for j := 0; j < steps; j++ {
+		if j == shutdownAt {
+			// graceful shutdown with a request in flight; streams opened from here on are ignored
+			// by the server and their DATA (mostly padded below) is discarded
+			ops = append(ops, fmt.Sprintf("shutdown %d", nextID))
+			nextID += 2
+			afterGoAway = true
+			openStream()
+		}
 		s := pick()
 		switch k := r.Intn(100); {
 		case k < 40:
